@@ -84,6 +84,9 @@ InvRefusalJudged == (Mine /\ ~IsH2) => RefusalJudged(req)
 InvTargetIsSafe == (Mine /\ ~IsH2) => TargetIsSafe(req)
 InvAutoOnlyWhenAbsent == (Mine /\ ~IsH2) => AutoOnlyWhenAbsent(req)
 InvEncodeIdempotent == (Mine /\ ~IsH2) => EncodeIdempotent(req)
+\* the six invariants above as ONE invariant that shares the serialisation and its parse (what the check runs; when it
+\* fails the harness runs the six separately to name the clause)
+InvAllOnRequest == (Mine /\ ~IsH2) => FirstFailing(req) = "none"
 InvH1UnsafeIsH2Refused == Mine => \A i \in 1..Len(req.hdrs) : req.hdrs[i].skip \/ H1UnsafeIsH2Refused(req.hdrs[i])
 InvExpectTotal == Mine => /\ Expect(req.level, req) \in {"MustRefuse", "MustBeExactlyThis", "Either"}
                           /\ (Len(req.hdrs) > 0 => H2Expect(req.hdrs[1]) \in {"MustRefuse", "MustBeExactlyThis", "Either"})
